@@ -53,9 +53,21 @@ const amtAlphabet = "0123456789.+-e_ "
 func genAmt(g *Gen) {
 	r := g.Rng
 	maxAmt := massutil.MaxAmount().IntValue()
-	emitParse := func(class, s string) { g.Op(class, "parse %s", hexTok([]byte(s))) }
+	// The engine is stateless, so every op is its own history.  `reset` lines keep the history that
+	// ./check attaches to a disagreement short: one op in the hand-written / boundary / short
+	// exhaustive part (where a defect shows up first => single-line replay), at most `every` ops later.
+	every, sinceReset := 1, 0
+	tick := func() {
+		if sinceReset%every == 0 {
+			g.Reset()
+		}
+		sinceReset++
+	}
+	emitParse := func(class, s string) { tick(); g.Op(class, "parse %s", hexTok([]byte(s))) }
 	emitFormat := func(class string, m int64) {
+		tick()
 		g.Op(class, "format %d", m)
+		tick()
 		g.Op(class+"2", "format2 %d", m)
 	}
 	// hand-written regression strings (D7 witnesses first)
@@ -71,17 +83,23 @@ func genAmt(g *Gen) {
 	}
 	// exhaustive short strings over the property's alphabet
 	maxLen := g.Scale(3, 5)
-	var rec func(prefix string, n int)
-	rec = func(prefix string, n int) {
-		emitParse(fmt.Sprintf("exh-len%d", len(prefix)), prefix)
+	var rec func(class, prefix string, n int)
+	rec = func(class, prefix string, n int) {
 		if n == 0 {
+			emitParse(class, prefix)
 			return
 		}
 		for i := 0; i < len(amtAlphabet); i++ {
-			rec(prefix+string(amtAlphabet[i]), n-1)
+			rec(class, prefix+string(amtAlphabet[i]), n-1)
 		}
 	}
-	rec("", maxLen)
+	for l := 0; l <= maxLen; l++ {
+		if l >= 4 {
+			every, sinceReset = 32, 0
+		}
+		rec(fmt.Sprintf("exh-len%d", l), "", l)
+	}
+	every, sinceReset = 1, 0
 	// the 8/9-significant-fraction-digit edge and the supply edge, exhaustively over {0,1} fractions of
 	// 7..9 digits behind three integer parts (includes trailing-zero runs that bring 9 digits back to <= 8)
 	for _, ip := range []string{"0", "", "206438399", "206438400"} {
@@ -95,6 +113,7 @@ func genAmt(g *Gen) {
 			}
 		}
 	}
+	every, sinceReset = 32, 0
 	if !g.Quick() {
 		// deeper exhaustive layers over reduced alphabets (the full 16-symbol alphabet stops at length 5)
 		var rec2 func(class, alpha, prefix string, n int)
